@@ -4,7 +4,14 @@
 # 1. in the scratch worktree: demo passes clean; with patch: repo tests pass, demo fails
 # 2. apply to /repo, run the quick checks, undo
 wt="$1"; ab="$2"; id="$3"; shift 3
-checks="$@"; [ -z "$checks" ] && checks="C01 C02 C03 C04 C05 C06 C07 C08 C09 C10 C11 C12 C13 C14 C15 C16 C17"
+checks="$@"
+if [ -z "$checks" ]; then
+  # only checks that compile the patched crate can be affected
+  if grep -q "^+++ b/yuv/" "$wt/OUT/$ab/patch.diff"; then checks="C07 C08 C13"
+  elif grep -q "^+++ b/deblock/" "$wt/OUT/$ab/patch.diff"; then checks="C09 C13 C16"
+  else checks="C01 C02 C03 C04 C05 C06 C10 C11 C12 C13 C14 C15 C17"; fi
+fi
+export VERIF_SHRINK_SECS=3
 src="$wt/OUT/$ab"; out="/verif/seeded/$id"; mkdir -p "$out"
 cp "$src/patch.diff" "$src/demo.rs" "$out/"; cp "$src/meta.json" "$out/agent_meta.json"
 place=$(head -1 "$src/demo.rs" | sed -n 's/.*place at \([^ ;]*\).*/\1/p')
@@ -12,10 +19,16 @@ crate=$(echo "$place" | cut -d/ -f1); tname=$(basename "$place" .rs)
 pkg=$(grep -m1 '^name' "$wt/$crate/Cargo.toml" | sed 's/.*"\(.*\)".*/\1/')
 cd "$wt" || exit 2
 git checkout -q -- . ; mkdir -p "$(dirname "$place")"; cp "$src/demo.rs" "$place"
-a=$(cargo test --offline -p "$pkg" --test "$tname" 2>&1 | grep -E "^test result" | head -1)
+feat=""; grep -q "verif_hooks" "$src/demo.rs" && feat="--features verif-hooks"
+devdeps=0
+if grep -q "h263_rs_yuv\|h263_rs_deblock" "$src/demo.rs" && [ "$crate" = "h263" ]; then
+  devdeps=1
+  printf '\n[dev-dependencies]\nh263-rs-yuv = { path = "../yuv" }\nh263-rs-deblock = { path = "../deblock" }\n' >> h263/Cargo.toml
+fi
+a=$(cargo test --offline -p "$pkg" $feat --test "$tname" 2>&1 | grep -E "^test result" | head -1)
 git apply "$src/patch.diff" || { echo "PATCH DOES NOT APPLY"; exit 3; }
 b=$(cargo test --workspace --no-fail-fast --offline --lib 2>&1 | grep -E "^test result" | tr '\n' ' ')
-c=$(cargo test --offline -p "$pkg" --test "$tname" 2>&1 | grep -E "^test result" | head -1)
+c=$(cargo test --offline -p "$pkg" $feat --test "$tname" 2>&1 | grep -E "^test result" | head -1)
 git checkout -q -- . ; rm -f "$place"; rmdir "$(dirname "$place")" 2>/dev/null
 echo "[$id] demo clean: $a"; echo "[$id] suite patched: $b"; echo "[$id] demo patched: $c"
 # 2. against /repo
